@@ -3,6 +3,8 @@
 run every claimed check's quick command against that tree, record which checks report a violation."""
 import glob, json, os, re, subprocess, sys
 W = "/var/tmp/mut2"
+if not os.path.isdir(W):      # scratch worktree of /repo, created on demand (remove it with `git -C /repo worktree remove --force`)
+    __import__("subprocess").run(["git", "-C", "/repo", "worktree", "add", "-q", "--detach", W, "HEAD"])
 V = "/verif"
 props = sorted(f[:-3] for f in os.listdir(V + "/rules") if re.match(r"C\d+\.py$", f))
 head = subprocess.check_output(["git", "-C", "/repo", "rev-parse", "HEAD"], text=True).strip()
